@@ -6,21 +6,10 @@
     The one place where the hypothesis [fits] fails on real input is the open known finding C02-lone-cr (yaml.v3
     counts a lone CR as a line break, pint does not): Run/C02.v evaluates [fits_b] on every correspondence case. *)
 From Coq Require Import List String Ascii Arith Bool Lia.
-From PintV Require Import Common.Bytes Model.Yaml Model.Parser Model.Routing Proofs.C19_relaxed Proofs.C19_wrapper Proofs.C02_wellformed.
+From PintV Require Import Common.Bytes Model.Yaml Model.Parser Model.YamlFits Model.Routing Proofs.C19_relaxed Proofs.C19_wrapper Proofs.C02_wellformed.
 Import ListNotations.
 Open Scope string_scope.
 Open Scope list_scope.
-
-(** Number of lines of a [strings.Split(s, "\n")] result that are source lines: a final empty string (the text
-    ended with a line break) is not a line. *)
-Fixpoint elen (l : list string) : nat :=
-  match l with
-  | [] => 0
-  | x :: r => match r with
-              | [] => if String.eqb x "" then 0 else 1
-              | _ :: _ => S (elen r)
-              end
-  end.
 
 Lemma elen_le_length l : elen l <= List.length l.
 Proof.
@@ -32,7 +21,7 @@ Qed.
 
 Lemma elen_firstn k l : elen (firstn k l) <= List.length l.
 Proof.
-  pose proof (elen_le_length (firstn k l)). pose proof (firstn_le_length k l). lia.
+  pose proof (elen_le_length (firstn k l)). pose proof (firstn_length k l). lia.
 Qed.
 
 Section Lines.
@@ -337,5 +326,589 @@ Section Lines.
             apply slots_ok_add_unknown; [exact Hs1|exact Hk].
         + apply Hfin; [intros k0 E0; inversion E0; subst; exact Hp|exact Hs1|exact Hst1].
     Qed.
+
+    (** ---- the validations of parseRule ---- *)
+    Lemma first_bad_tag_In want : forall l k p, first_bad_tag want l = Some (k, p) -> exists k', In (k', Some p) l.
+    Proof.
+      induction l as [|[k0 [n0|]] r IH]; intros k p H; cbn [first_bad_tag] in H; [discriminate| |].
+      - destruct (negb (is_tag (n_tag n0) want)).
+        + inversion H; subst. exists k. left. reflexivity.
+        + destruct (IH _ _ H) as [k' X]. exists k'. right. exact X.
+      - destruct (IH _ _ H) as [k' X]. exists k'. right. exact X.
+    Qed.
+
+    Lemma first_null_text_In : forall l k p, first_null_text l = Some (k, p) -> exists k', In (k', Some p) l.
+    Proof.
+      induction l as [|[k0 [n0|]] r IH]; intros k p H; cbn [first_null_text] in H; [discriminate| |].
+      - destruct ((n_tag n0 =? nullTag) && negb (n_value n0 =? ""))%bool.
+        + inversion H; subst. exists k. left. reflexivity.
+        + destruct (IH _ _ H) as [k' X]. exists k'. right. exact X.
+      - destruct (IH _ _ H) as [k' X]. exists k'. right. exact X.
+    Qed.
+
+    Lemma onode_Some {A} (o : option (node * A)) p : onode o = Some p -> exists a, o = Some (p, a).
+    Proof. destruct o as [[x a]|]; cbn; intros H; [inversion H; subst; exists a; reflexivity|discriminate]. Qed.
+
+    Lemma vsm_ok fld all lns : forall l seen pe lr,
+      (forall k v, In (k, v) l -> fits off k /\ fits off v) ->
+      validate_string_map_loop fld all off lns seen l = Some (pe, lr) -> good (pe_line pe).
+    Proof.
+      induction l as [|[k v] r IH]; intros seen pe lr Hl H; cbn [validate_string_map_loop] in H; [discriminate|].
+      destruct (Hl k v (or_introl eq_refl)) as [Hk Hv].
+      destruct (negb (is_tag (n_tag v) strTag)).
+      - inversion H; subst. cbn [pe_line]. exact (proj1 (fits_good off v Hv)).
+      - destruct (mem_str (n_value k) seen).
+        + inversion H; subst. cbn [pe_line]. exact (proj2 (fits_good off k Hk)).
+        + eapply IH; [|exact H]. intros k0 v0 H0. apply Hl. right. exact H0.
+    Qed.
+
+    Lemma erk_ok key kv ex pe :
+      (forall x y, kv = Some (x, y) -> ynode_ok y) -> (forall x y, ex = Some (x, y) -> ynode_ok y) ->
+      ensure_required_keys key kv ex = Some pe -> good (pe_line pe).
+    Proof.
+      intros Hkv Hex H. unfold ensure_required_keys in H. destruct kv as [[x y]|]; [|discriminate].
+      destruct (Hkv x y eq_refl) as (_ & Gy & _).
+      destruct (negb (has_value y)); [inversion H; subst; exact Gy|].
+      destruct ex as [[m e]|]; [|inversion H; subst; exact Gy].
+      destruct (Hex m e eq_refl) as (_ & Ge & _).
+      destruct (negb (has_value e)); [inversion H; subst; exact Ge|discriminate].
+    Qed.
+
+    Lemma bad_label_ok : forall items pe,
+      (forall k v, In (k, v) items -> ynode_ok k /\ ynode_ok v) ->
+      bad_label lname_ok lvalue_ok items = Some pe -> good (pe_line pe).
+    Proof.
+      induction items as [|[k v] r IH]; intros pe Hi H; cbn [bad_label] in H; [discriminate|].
+      destruct (Hi k v (or_introl eq_refl)) as [(Gk & _ & _) _].
+      destruct (negb (lname_ok (y_value k)) || (y_value k =? "__name__"))%bool; [inversion H; subst; exact Gk|].
+      destruct (negb (lvalue_ok (y_value v))); [inversion H; subst; exact Gk|].
+      apply IH; [|exact H]. intros k0 v0 H0. apply Hi. right. exact H0.
+    Qed.
+
+    Lemma bad_annotation_ok : forall items pe,
+      (forall k v, In (k, v) items -> ynode_ok k /\ ynode_ok v) ->
+      bad_annotation lname_ok items = Some pe -> good (pe_line pe).
+    Proof.
+      induction items as [|[k v] r IH]; intros pe Hi H; cbn [bad_annotation] in H; [discriminate|].
+      destruct (Hi k v (or_introl eq_refl)) as [(Gk & _ & _) _].
+      destruct (negb (lname_ok (y_value k))); [inversion H; subst; exact Gk|].
+      apply IH; [|exact H]. intros k0 v0 H0. apply Hi. right. exact H0.
+    Qed.
+
+    Ltac brk H :=
+      repeat match type of H with
+             | match ?x with _ => _ end = _ => let E := fresh "E" in destruct x eqn:E; try discriminate H
+             end.
+
+    Lemma rule_checks_ok n s : fits off n -> slots_ok s ->
+      forall o, In o (rule_checks metric_ok lname_ok lvalue_ok off n s) -> forall pe fl, o = Some (pe, fl) -> good (pe_line pe).
+    Proof.
+      intros Hn (A & B & C & D) o Hin pe fl ->.
+      pose proof (A FRecord) as ARec. pose proof (A FAlert) as AAl. pose proof (A FExpr) as AEx.
+      pose proof (A FFor) as AFor. pose proof (A FKeep) as AKeep. cbn [get_sc] in ARec, AAl, AEx, AFor, AKeep.
+      assert (Hsc : forall k p, In (k, Some p) [("record", onode (s_record s)); ("alert", onode (s_alert s)); ("expr", onode (s_expr s));
+                                               ("for", onode (s_for s)); ("keep_firing_for", onode (s_keep s))] -> fits off p).
+      { intros k p H. cbn [In] in H.
+        destruct H as [H|[H|[H|[H|[H|[]]]]]]; inversion H as [[H1 H2]]; destruct (onode_Some _ _ H2) as [a X].
+        - exact (proj1 (ARec _ _ X)). - exact (proj1 (AAl _ _ X)). - exact (proj1 (AEx _ _ X)).
+        - exact (proj1 (AFor _ _ X)). - exact (proj1 (AKeep _ _ X)). }
+      assert (Hmp : forall k p, In (k, Some p) [("labels", onode (s_labels s)); ("annotations", onode (s_ann s))] -> fits off p).
+      { intros k p H. cbn [In] in H.
+        destruct H as [H|[H|[]]]; inversion H as [[H1 H2]]; destruct (onode_Some _ _ H2) as [a X].
+        - exact (proj1 (B _ _ X)). - exact (proj1 (C _ _ X)). }
+      unfold rule_checks in Hin. cbv beta zeta in Hin. cbn [In] in Hin.
+      destruct Hin as [H|[H|[H|[H|[H|[H|[H|[H|[H|[H|[H|[H|[H|[H|[H|[H|[H|[]]]]]]]]]]]]]]]]]].
+      - (* both record and alert *)
+        brk H. inversion H; subst. cbn [pe_line]. exact (proj1 (fits_good off n Hn)).
+      - (* expr only *)
+        brk H. inversion H; subst. cbn [pe_line]. subst. exact (proj1 (proj2 (proj2 (AEx _ _ eq_refl)))).
+      - brk H. inversion H; subst. cbn [pe_line]. subst. exact (proj1 (proj2 (AFor _ _ eq_refl))).
+      - brk H. inversion H; subst. cbn [pe_line]. subst. exact (proj1 (proj2 (AKeep _ _ eq_refl))).
+      - brk H. inversion H; subst. cbn [pe_line]. subst. exact (proj1 (ymap_lines_ok _ (proj2 (C _ _ eq_refl)))).
+      - destruct (first_bad_tag strTag _) as [[k p]|] eqn:E; [|discriminate]. inversion H; subst. cbn [pe_line].
+        destruct (first_bad_tag_In _ _ _ _ E) as [k' X]. exact (proj1 (fits_good off p (Hsc _ _ X))).
+      - destruct (first_null_text _) as [[k p]|] eqn:E; [|discriminate]. inversion H; subst. cbn [pe_line].
+        destruct (first_null_text_In _ _ _ E) as [k' X].
+        apply (fun Y => proj1 (fits_good off p (Hsc k' p Y))). cbn [In] in X |- *. tauto.
+      - destruct (first_bad_tag mapTag _) as [[k p]|] eqn:E; [|discriminate]. inversion H; subst. cbn [pe_line].
+        destruct (first_bad_tag_In _ _ _ _ E) as [k' X]. exact (proj1 (fits_good off p (Hmp _ _ X))).
+      - unfold validate_string_map in H. eapply vsm_ok; [|exact H].
+        intros k v Hkv. destruct (s_labels s) as [[p m]|] eqn:E; [|destruct Hkv].
+        exact (fits_mapping off p k v (proj1 (B _ _ eq_refl)) Hkv).
+      - unfold validate_string_map in H. eapply vsm_ok; [|exact H].
+        intros k v Hkv. destruct (s_ann s) as [[p m]|] eqn:E; [|destruct Hkv].
+        exact (fits_mapping off p k v (proj1 (C _ _ eq_refl)) Hkv).
+      - destruct (ensure_required_keys "record" (s_record s) (s_expr s)) as [pe0|] eqn:E; [|discriminate].
+        inversion H; subst. eapply erk_ok; [| |exact E]; intros x y X; [exact (proj2 (ARec _ _ X))|exact (proj2 (AEx _ _ X))].
+      - destruct (ensure_required_keys "alert" (s_alert s) (s_expr s)) as [pe0|] eqn:E; [|discriminate].
+        inversion H; subst. eapply erk_ok; [| |exact E]; intros x y X; [exact (proj2 (AAl _ _ X))|exact (proj2 (AEx _ _ X))].
+      - brk H. inversion H; subst. cbn [pe_line]. apply (fun Y => proj1 (fits_good off _ (D _ Y))). left. reflexivity.
+      - brk H. inversion H; subst. cbn [pe_line]. subst. exact (proj1 (proj2 (ARec _ _ eq_refl))).
+      - brk H. inversion H; subst. cbn [pe_line]. subst. exact (proj1 (proj2 (ARec _ _ eq_refl))).
+      - brk H. destruct (bad_label lname_ok lvalue_ok (ym_items y)) as [pe0|] eqn:Eb; [|discriminate]. inversion H; subst.
+        eapply bad_label_ok; [|exact Eb]. exact (proj2 (proj2 (B _ _ eq_refl))).
+      - brk H. destruct (bad_annotation lname_ok (ym_items y)) as [pe0|] eqn:Eb; [|discriminate]. inversion H; subst.
+        eapply bad_annotation_ok; [|exact Eb]. exact (proj2 (proj2 (C _ _ eq_refl))).
+    Qed.
+
+    Lemma slots0_ok : slots_ok slots0.
+    Proof.
+      split; [|split; [|split]].
+      - intros f x y E. destruct f; discriminate E.
+      - intros x m E. discriminate E.
+      - intros x m E. discriminate E.
+      - intros u [].
+    Qed.
+
+    Lemma rule_final_ok s : slots_ok s -> fresh s \/ started s -> rule_lines_ok (fst (rule_final s)).
+    Proof.
+      intros (A & B & C & D) Hst.
+      pose proof (A FRecord) as ARec. pose proof (A FAlert) as AAl. pose proof (A FExpr) as AEx.
+      pose proof (A FFor) as AFor. pose proof (A FKeep) as AKeep. cbn [get_sc] in ARec, AAl, AEx, AFor, AKeep.
+      assert (Hov : forall (o : option (node * ynode)) y,
+                 (forall x y0, o = Some (x, y0) -> fits off x /\ ynode_ok y0) -> oval o = Some y -> ynode_ok y).
+      { intros [[x y0]|] y Ho E; cbn in E; [inversion E; subst; exact (proj2 (Ho _ _ eq_refl))|discriminate]. }
+      assert (Hom : forall (o : option (node * ymap)) m,
+                 (forall x m0, o = Some (x, m0) -> fits off x /\ ymap_ok m0) -> oval o = Some m -> ymap_ok m).
+      { intros [[x m0]|] m Ho E; cbn in E; [inversion E; subst; exact (proj2 (Ho _ _ eq_refl))|discriminate]. }
+      unfold rule_final.
+      destruct (s_record s) as [[rn ry]|] eqn:R.
+      - destruct (s_expr s) as [[en ey]|] eqn:X; [|exact I].
+        destruct Hst as [(_ & _ & F & _)|(S1 & S2 & S3)]; [congruence|].
+        unfold rule_lines_ok, body_ok. cbn [fst r_error r_body r_first r_last].
+        split; [exact S1|]. split; [exact S2|]. split; [exact S3|].
+        split; [exact (proj2 (ARec _ _ eq_refl))|]. split; [exact (proj2 (AEx _ _ eq_refl))|].
+        intros m E; exact (Hom _ _ B E).
+      - destruct (s_alert s) as [[an ay]|] eqn:Al; [|exact I].
+        destruct (s_expr s) as [[en ey]|] eqn:X; [|exact I].
+        destruct Hst as [(_ & _ & _ & F & _)|(S1 & S2 & S3)]; [congruence|].
+        unfold rule_lines_ok, body_ok. cbn [fst r_error r_body r_first r_last].
+        split; [exact S1|]. split; [exact S2|]. split; [exact S3|].
+        split; [exact (proj2 (AAl _ _ eq_refl))|]. split; [exact (proj2 (AEx _ _ eq_refl))|].
+        split; [intros y E; exact (Hov _ _ AFor E)|]. split; [intros y E; exact (Hov _ _ AKeep E)|].
+        split; [intros m E; exact (Hom _ _ B E)|intros m E; exact (Hom _ _ C E)].
+    Qed.
+
+    (** parseRule: whatever it returns (error rule, complete rule, or the "not a rule" answer) is fine. *)
+    Lemma parse_rule_ok n : fits off n -> rule_lines_ok (fst (parse_rule plines metric_ok lname_ok lvalue_ok lines off n)).
+    Proof.
+      intros Hn. unfold parse_rule.
+      assert (L' : loop_post (unpack_nodes n) (rule_loop plines lines off (unpack_nodes n) None slots0)).
+      { apply rule_loop_ok.
+        - intros p Hp. exact (fits_unpack off n p Hn Hp).
+        - intros k E. discriminate E.
+        - exact slots0_ok.
+        - left. repeat split. }
+      unfold loop_post in L'.
+      destruct (rule_loop plines lines off (unpack_nodes n) None slots0) as [r|s]; [exact L'|].
+      destruct L' as (Hs & Hst & _).
+      destruct (first_some (rule_checks metric_ok lname_ok lvalue_ok off n s)) as [[pe [f l]]|] eqn:FS.
+      - cbn [fst]. apply mk_err_ok. exact (rule_checks_ok n s Hn Hs _ (first_some_In _ _ FS) pe (f, l) eq_refl).
+      - exact (rule_final_ok s Hs Hst).
+    Qed.
   End Ctx.
+
+  (** ---- strict mode (offset 0) ---- *)
+  Lemma bad_rule_key_In : forall parts k, bad_rule_key parts = Some k -> In k parts.
+  Proof.
+    fix IH 1. intros [|k0 [|v r]] k H; cbn [bad_rule_key] in H; [discriminate| |].
+    - destruct (field_of (node_value k0)); try discriminate H. inversion H; subst. left. reflexivity.
+    - destruct (field_of (node_value k0)); try (right; right; exact (IH r k H)). inversion H; subst. left. reflexivity.
+  Qed.
+
+  Lemma gerr_ok g line msg : group_ok g -> good line -> group_ok (gerr g line msg).
+  Proof.
+    intros (A & B & C) G. split; [|split].
+    - intros pe E. cbn [gerr g_error] in E. inversion E; subst. exact G.
+    - exact B.
+    - exact C.
+  Qed.
+
+  Lemma g_set_name_ok g nm : group_ok g -> group_ok (g_set_name g nm).
+  Proof. intros (A & B & C). split; [exact A|split; [exact B|exact C]]. Qed.
+
+  Lemma g_set_labels_ok g m : group_ok g -> ymap_ok m -> group_ok (g_set_labels g m).
+  Proof.
+    intros (A & B & C) Hm. split; [exact A|split; [|exact C]].
+    intros m0 E. cbn [g_set_labels g_labels] in E. inversion E; subst. exact Hm.
+  Qed.
+
+  Lemma g_add_rules_ok g rs : group_ok g -> (forall r, In r rs -> rule_lines_ok r) -> group_ok (g_add_rules g rs).
+  Proof.
+    intros (A & B & C) Hr. split; [exact A|split; [exact B|]].
+    intros r Hin. cbn [g_add_rules g_rules] in Hin. apply in_app_or in Hin. destruct Hin as [X|X]; [exact (C r X)|exact (Hr r X)].
+  Qed.
+
+  Lemma empty_group_ok : group_ok empty_group.
+  Proof. split; [|split]; [intros pe E; discriminate E|intros m E; discriminate E|intros r []]. Qed.
+
+  Lemma bad_group_label_ok : forall l pe,
+    (forall k v, In (k, v) l -> fits 0 k /\ fits 0 v) -> bad_group_label lname_ok lvalue_ok l = Some pe -> good (pe_line pe).
+  Proof.
+    induction l as [|[k v] r IH]; intros pe Hl H; cbn [bad_group_label] in H; [discriminate|].
+    destruct (Hl k v (or_introl eq_refl)) as [Hk _]. pose proof (proj2 (fits_good 0 k Hk)) as Gk.
+    destruct (negb (lname_ok (n_value k)) || (n_value k =? "__name__"))%bool; [inversion H; subst; exact Gk|].
+    destruct (negb (lvalue_ok (node_value v))); [inversion H; subst; exact Gk|].
+    apply IH; [|exact H]. intros k0 v0 H0. apply Hl. right. exact H0.
+  Qed.
+
+  Section Strict.
+    Variable thanos : bool.
+    Variable lines : list string.
+    Hypothesis Hlen : elen lines <= T.
+
+    Lemma Hlen0 : elen lines + 0 <= T.
+    Proof. lia. Qed.
+
+    Notation PRS := (parse_rule_strict plines metric_ok lname_ok lvalue_ok lines).
+    Notation GE := (group_entry plines metric_ok lname_ok lvalue_ok dur_ok int_ok thanos lines).
+    Notation GL := (group_loop plines metric_ok lname_ok lvalue_ok dur_ok int_ok thanos lines).
+    Notation PG := (parse_group plines metric_ok lname_ok lvalue_ok dur_ok int_ok thanos lines).
+
+    Lemma parse_rule_strict_ok n : fits 0 n -> rule_lines_ok (PRS n).
+    Proof.
+      intros Hn. pose proof (proj2 (fits_good 0 n Hn)) as Gn. unfold parse_rule_strict.
+      destruct (negb (is_tag (n_tag n) mapTag)); [apply err_rule_ok; exact Gn|].
+      destruct (bad_rule_key (unpack_nodes n)) as [k|] eqn:B.
+      - apply err_rule_ok. exact (proj2 (fits_good 0 k (fits_unpack 0 n k Hn (bad_rule_key_In _ _ B)))).
+      - pose proof (parse_rule_ok lines 0 Hlen0 n Hn) as P.
+        destruct (parse_rule plines metric_ok lname_ok lvalue_ok lines 0 n) as [r e]. cbn [fst] in P.
+        destruct e; [apply err_rule_ok; exact Gn|exact P].
+    Qed.
+
+    Lemma group_entry_ok g k v g1 :
+      fits 0 k -> fits 0 v -> group_ok g -> GE g k v = inl g1 \/ GE g k v = inr g1 -> group_ok g1.
+    Proof.
+      intros Hk Hv Hg H. pose proof (proj2 (fits_good 0 k Hk)) as Gk. unfold group_entry in H.
+      repeat match type of H with
+             | context [match validate_string_map ?a ?b ?c ?d with _ => _ end] =>
+                 destruct (validate_string_map a b c d) as [[pe0 lr0]|] eqn:V
+             | context [match bad_group_label _ _ ?l with _ => _ end] =>
+                 destruct (bad_group_label lname_ok lvalue_ok l) as [pe1|] eqn:BG
+             | context [if ?b then _ else _] => destruct b
+             end;
+        destruct H as [H|H]; try discriminate H; inversion H; subst; clear H;
+        try exact Hg; try (apply gerr_ok; [exact Hg|exact Gk]).
+      all: first
+        [ apply g_add_rules_ok; [exact Hg|]; intros r Hr; apply in_map_iff in Hr; destruct Hr as (c & <- & Hc);
+          apply parse_rule_strict_ok; exact (fits_unpack 0 v c Hv Hc)
+        | apply g_set_labels_ok; [exact Hg|]; exact (nym_ok lines 0 Hlen0 k v Hk Hv)
+        | apply gerr_ok; [exact Hg|]; unfold validate_string_map in V; eapply vsm_ok; [|exact V];
+          intros k0 v0 H0; exact (fits_mapping 0 v k0 v0 Hv H0)
+        | apply gerr_ok; [exact Hg|]; eapply bad_group_label_ok; [|exact BG];
+          intros k0 v0 H0; exact (fits_mapping 0 v k0 v0 Hv H0) ].
+    Qed.
+
+    Lemma group_loop_ok im nl : good nl -> forall l g sk,
+      (forall k v, In (k, v) l -> fits 0 k /\ fits 0 v) -> group_ok g -> group_ok (GL im nl g sk l).
+    Proof.
+      intros Gnl. induction l as [|[k v] r IH]; intros g sk Hl Hg; cbn [group_loop].
+      - destruct (_ && _)%bool; [apply gerr_ok; assumption|exact Hg].
+      - destruct (Hl k v (or_introl eq_refl)) as [Hk Hv].
+        destruct (GE g k v) as [g1|g1] eqn:E.
+        + exact (group_entry_ok g k v g1 Hk Hv Hg (or_introl E)).
+        + pose proof (group_entry_ok g k v g1 Hk Hv Hg (or_intror E)) as H1.
+          destruct (mem_str (node_value k) sk).
+          * apply gerr_ok; [exact H1|exact (proj2 (fits_good 0 k Hk))].
+          * apply IH; [|exact H1]. intros k0 v0 H0. apply Hl. right. exact H0.
+    Qed.
+
+    Lemma parse_group_ok n : fits 0 n -> group_ok (PG n).
+    Proof.
+      intros Hn. pose proof (proj2 (fits_good 0 n Hn)) as Gn. unfold parse_group.
+      destruct (negb (is_tag (n_tag n) mapTag)); [apply gerr_ok; [exact empty_group_ok|exact Gn]|].
+      apply group_loop_ok; [exact Gn| |exact empty_group_ok].
+      intros k v H. exact (fits_mapping 0 n k v Hn H).
+    Qed.
+
+    Definition res_ok (r : perror + (list string * list group)) : Prop :=
+      match r with inl e => good (pe_line e) | inr (_, gs) => groups_ok gs end.
+
+    Lemma groups_of_seq_ok : forall items names acc,
+      (forall c, In c items -> fits 0 c) -> groups_ok acc ->
+      res_ok (groups_of_seq plines metric_ok lname_ok lvalue_ok dur_ok int_ok thanos lines items names acc).
+    Proof.
+      induction items as [|c r IH]; intros names acc Hi Ha; cbn [groups_of_seq]; [exact Ha|].
+      pose proof (Hi c (or_introl eq_refl)) as Hc.
+      destruct (mem_str _ names); [exact (proj2 (fits_good 0 c Hc))|].
+      apply IH; [intros c0 H0; apply Hi; right; exact H0|].
+      apply groups_ok_app; [exact Ha|]. intros g [<-|[]]. exact (parse_group_ok c Hc).
+    Qed.
+
+    Lemma groups_of_entries_ok : forall l hg names acc,
+      (forall k v, In (k, v) l -> fits 0 k /\ fits 0 v) -> groups_ok acc ->
+      res_ok (groups_of_entries plines metric_ok lname_ok lvalue_ok dur_ok int_ok thanos lines l hg names acc).
+    Proof.
+      induction l as [|[k v] r IH]; intros hg names acc Hl Ha; cbn [groups_of_entries]; [exact Ha|].
+      destruct (Hl k v (or_introl eq_refl)) as [Hk Hv]. pose proof (proj2 (fits_good 0 k Hk)) as Gk.
+      destruct (negb (n_tag k =? strTag)); [exact Gk|].
+      destruct (negb (node_value k =? "groups")); [exact Gk|].
+      destruct hg; [exact Gk|].
+      destruct (negb (is_tag (n_tag v) seqTag)); [exact Gk|].
+      pose proof (groups_of_seq_ok (unpack_nodes v) names acc (fun c Hc => fits_unpack 0 v c Hv Hc) Ha) as S.
+      destruct (groups_of_seq plines metric_ok lname_ok lvalue_ok dur_ok int_ok thanos lines (unpack_nodes v) names acc) as [e|[n1 a1]];
+        [exact S|].
+      apply IH; [intros k0 v0 H0; apply Hl; right; exact H0|exact S].
+    Qed.
+
+    Lemma groups_of_roots_ok : forall roots names acc,
+      (forall c, In c roots -> fits 0 c) -> groups_ok acc ->
+      res_ok (groups_of_roots plines metric_ok lname_ok lvalue_ok dur_ok int_ok thanos lines roots names acc).
+    Proof.
+      induction roots as [|n r IH]; intros names acc Hr Ha; cbn [groups_of_roots]; [exact Ha|].
+      pose proof (Hr n (or_introl eq_refl)) as Hn.
+      destruct (negb (is_tag (n_tag n) mapTag)); [exact (proj2 (fits_good 0 n Hn))|].
+      pose proof (groups_of_entries_ok (mapping_nodes n) false names acc (fun k v H => fits_mapping 0 n k v Hn H) Ha) as S.
+      destruct (groups_of_entries plines metric_ok lname_ok lvalue_ok dur_ok int_ok thanos lines (mapping_nodes n) false names acc) as [e|[n1 a1]];
+        [exact S|].
+      apply IH; [intros c0 H0; apply Hr; right; exact H0|exact S].
+    Qed.
+
+    Lemma parse_groups_ok d : fits 0 d ->
+      match parse_groups plines metric_ok lname_ok lvalue_ok dur_ok int_ok thanos lines d with
+      | inl e => good (pe_line e)
+      | inr gs => groups_ok gs
+      end.
+    Proof.
+      intros Hd. unfold parse_groups.
+      pose proof (groups_of_roots_ok (unpack_nodes d) [] [] (fun c Hc => fits_unpack 0 d c Hd Hc) groups_ok_nil) as S.
+      destruct (groups_of_roots plines metric_ok lname_ok lvalue_ok dur_ok int_ok thanos lines (unpack_nodes d) [] []) as [e|[n1 a1]]; exact S.
+    Qed.
+  End Strict.
+
+  Definition oerr_ok (o : option perror) : Prop := forall pe, o = Some pe -> good (pe_line pe).
+
+  Lemma parse_strict_loop_ok thanos all_lines yerr :
+    List.length all_lines <= T -> oerr_ok yerr ->
+    forall ds idx groups err,
+      (forall d nl, In (d, nl) ds -> fits 0 d) -> groups_ok groups -> oerr_ok err ->
+      file_ok (parse_strict_loop plines metric_ok lname_ok lvalue_ok dur_ok int_ok thanos all_lines ds yerr idx groups err).
+  Proof.
+    intros HT Hy. induction ds as [|[d nl] r IH]; intros idx groups err Hds Hg He; cbn [parse_strict_loop].
+    - destruct yerr as [e|]; (split; [|exact Hg]); cbn [f_error]; [exact Hy|exact He].
+    - pose proof (Hds d nl (or_introl eq_refl)) as Hd.
+      assert (Hl : elen (firstn nl all_lines) <= T) by (pose proof (elen_firstn nl all_lines); lia).
+      pose proof (parse_groups_ok thanos (firstn nl all_lines) Hl d Hd) as P.
+      destruct (parse_groups plines metric_ok lname_ok lvalue_ok dur_ok int_ok thanos (firstn nl all_lines) d) as [e|gs].
+      + split; [|exact Hg]. intros pe E. cbn [f_error] in E. inversion E; subst. exact P.
+      + apply IH; [intros d0 nl0 H0; exact (Hds d0 nl0 (or_intror H0))|apply groups_ok_app; assumption|].
+        destruct (1 <? S idx)%nat; [|intros pe E; discriminate E].
+        intros pe E. inversion E; subst. exact (proj2 (fits_good 0 d Hd)).
+  Qed.
+
+  Theorem strict_lines_inside thanos all_lines ds yerr :
+    List.length all_lines <= T -> oerr_ok yerr -> (forall d nl, In (d, nl) ds -> fits 0 d) ->
+    file_ok (parse_strict plines metric_ok lname_ok lvalue_ok dur_ok int_ok thanos all_lines ds yerr).
+  Proof.
+    intros HT Hy Hds. unfold parse_strict. apply parse_strict_loop_ok; try assumption; [exact groups_ok_nil|intros pe E; discriminate E].
+  Qed.
+
+  (** ---- relaxed mode ---- *)
+  Notation PR := (parse_rule plines metric_ok lname_ok lvalue_ok).
+  Notation PN := (parse_node plines metric_ok lname_ok lvalue_ok).
+  Notation PNS := (parse_node_S plines metric_ok lname_ok lvalue_ok).
+
+  Lemma try_parse_group_ok lines off c g rk rv :
+    elen lines + off <= T -> fits off c ->
+    try_parse_group plines lines off c = Some (g, (rk, rv)) -> group_ok g /\ fits off rk /\ fits off rv.
+  Proof.
+    intros Hlen Hc. unfold try_parse_group.
+    assert (G : forall l g0 ro,
+               (forall k v, In (k, v) l -> fits off k /\ fits off v) -> group_ok g0 ->
+               (forall k v, ro = Some (k, v) -> fits off k /\ fits off v) ->
+               group_ok (fst (try_group_loop plines lines off l g0 ro)) /\
+               (forall k v, snd (try_group_loop plines lines off l g0 ro) = Some (k, v) -> fits off k /\ fits off v)).
+    { induction l as [|[k v] r IH]; intros g0 ro Hl Hg Hro; cbn [try_group_loop]; [split; assumption|].
+      destruct (Hl k v (or_introl eq_refl)) as [Hk Hv].
+      assert (Hr : forall k0 v0, In (k0, v0) r -> fits off k0 /\ fits off v0) by (intros k0 v0 H0; apply Hl; right; exact H0).
+      destruct (node_value k =? "name"); [apply IH; [exact Hr|apply g_set_name_ok; exact Hg|exact Hro]|].
+      destruct (node_value k =? "labels");
+        [apply IH; [exact Hr|apply g_set_labels_ok; [exact Hg|exact (nym_ok lines off Hlen k v Hk Hv)]|exact Hro]|].
+      destruct (node_value k =? "rules"); [|apply IH; assumption].
+      apply IH; [exact Hr|exact Hg|].
+      destruct (kind_eqb (n_kind v) KSequence); [|exact Hro].
+      intros k0 v0 E. inversion E; subst. split; assumption. }
+    assert (G' := G (mapping_nodes c) empty_group None (fun k v H => fits_mapping off c k v Hc H) empty_group_ok).
+    clear G.
+    assert (G : group_ok (fst (try_group_loop plines lines off (mapping_nodes c) empty_group None)) /\
+                (forall k v, snd (try_group_loop plines lines off (mapping_nodes c) empty_group None) = Some (k, v) -> fits off k /\ fits off v)).
+    { apply G'. intros k v E. discriminate E. }
+    clear G'.
+    destruct (try_group_loop plines lines off (mapping_nodes c) empty_group None) as [g' [[k' v']|]]; [|discriminate].
+    cbn [fst snd] in G. destruct (g_name g' =? ""); [discriminate|]. intros H. inversion H; subst.
+    destruct G as [G1 G2]. split; [exact G1|exact (G2 rk rv eq_refl)].
+  Qed.
+
+  Lemma concat_opt_ok {B} (F : B -> option (list group)) : forall l gs,
+    (forall c g, In c l -> F c = Some g -> groups_ok g) -> concat_opt (map F l) = Some gs -> groups_ok gs.
+  Proof.
+    induction l as [|c l IH]; intros gs H E; cbn [map concat_opt] in E.
+    - inversion E. apply groups_ok_nil.
+    - destruct (F c) as [x|] eqn:Fc; [|discriminate]. destruct (concat_opt (map F l)) as [y|] eqn:Fl; [|discriminate].
+      inversion E; subst. apply groups_ok_app; [exact (H c x (or_introl eq_refl) Fc)|].
+      apply (IH y); [|reflexivity]. intros c0 g0 Hc. apply H. right. exact Hc.
+  Qed.
+
+  Lemma parse_node_ok : forall fuel lines off n parent grp gs,
+    elen lines + off <= T -> fits off n ->
+    (forall g, grp = Some g -> group_ok g) ->
+    PN fuel lines off n parent grp = Some gs -> groups_ok gs.
+  Proof.
+    induction fuel as [|fuel IH]; intros lines off n parent grp gs Hlen Hn Hgrp H; [discriminate|].
+    rewrite PNS in H. cbn zeta in H.
+    assert (Hch : forall x, concat_opt (map (fun c => PN fuel lines off c (Some n) grp) (unpack_nodes n)) = Some x -> groups_ok x).
+    { intros x. apply concat_opt_ok. intros c g Hc Hp. exact (IH _ _ _ _ _ _ Hlen (fits_unpack off n c Hn Hc) Hgrp Hp). }
+    destruct (n_kind n); auto.
+    - destruct (parent_is parent "groups").
+      + revert H. apply concat_opt_ok. intros c g Hc Hp.
+        destruct (try_parse_group plines lines off c) as [[g0 [rk rv]]|] eqn:TG.
+        * destruct (try_parse_group_ok lines off c g0 rk rv Hlen (fits_unpack off n c Hn Hc) TG) as (G1 & G2 & G3).
+          eapply IH; [exact Hlen|exact G3| |exact Hp]. intros g1 E. inversion E; subst. exact G1.
+        * inversion Hp. apply groups_ok_nil.
+      + fold (seq_step plines metric_ok lname_ok lvalue_ok fuel lines off n) in H. fold sel_rules in H. fold sel_nested in H.
+        assert (Hr : forall l r, (forall c, In c l -> fits off c) ->
+                       In r (flat_map sel_rules (map (seq_step plines metric_ok lname_ok lvalue_ok fuel lines off n) l)) -> rule_lines_ok r).
+        { induction l as [|c l IHl]; intros r Hl Hr; [destruct Hr|].
+          cbn [map flat_map] in Hr. apply in_app_or in Hr.
+          destruct Hr as [Hr|Hr]; [|exact (IHl r (fun c0 H0 => Hl c0 (or_intror H0)) Hr)].
+          rewrite seq_step_eq in Hr. pose proof (parse_rule_ok lines off Hlen c (Hl c (or_introl eq_refl))) as P.
+          destruct (PR lines off c) as [rr e]. destruct e; [destruct Hr|].
+          destruct Hr as [<-|[]]. exact P. }
+        assert (Hnest : forall l x, (forall c, In c l -> fits off c) ->
+                       concat_opt (flat_map sel_nested (map (seq_step plines metric_ok lname_ok lvalue_ok fuel lines off n) l)) = Some x -> groups_ok x).
+        { induction l as [|c l IHl]; intros x Hl Hx; [inversion Hx; apply groups_ok_nil|].
+          cbn [map flat_map] in Hx. rewrite seq_step_eq in Hx. destruct (PR lines off c) as [rr e]. destruct e; cbn [sel_nested app] in Hx.
+          - cbn [concat_opt] in Hx. destruct (PN fuel lines off c (Some n) None) as [y|] eqn:E; [|discriminate].
+            match type of Hx with match ?t with _ => _ end = _ => destruct t as [z|] eqn:E2; [|discriminate] end.
+            inversion Hx; subst.
+            apply groups_ok_app; [|exact (IHl z (fun c0 H0 => Hl c0 (or_intror H0)) eq_refl)].
+            eapply IH; [exact Hlen|exact (Hl c (or_introl eq_refl))| |exact E]. intros g0 X. discriminate.
+          - exact (IHl x (fun c0 H0 => Hl c0 (or_intror H0)) Hx). }
+        destruct (concat_opt _) as [nested|] eqn:En; [|discriminate]. inversion H; subst. clear H.
+        apply groups_ok_app; [|exact (Hnest _ _ (fun c Hc => fits_unpack off n c Hn Hc) En)].
+        set (g0 := match grp with Some g => g | None => empty_group end).
+        assert (Hg0 : group_ok g0).
+        { unfold g0. destruct grp as [g|]; [exact (Hgrp g eq_refl)|exact empty_group_ok]. }
+        destruct (flat_map sel_rules _) as [|r0 rs] eqn:Er.
+        * destruct (parent_is parent "rules"); [|apply groups_ok_nil]. intros g [<-|[]]. exact Hg0.
+        * intros g [<-|[]]. apply g_add_rules_ok; [exact Hg0|]. intros r X.
+          apply (Hr (unpack_nodes n) r (fun c Hc => fits_unpack off n c Hn Hc)). rewrite Er. exact X.
+    - revert H. apply concat_opt_ok. intros [k v] g Hkv Hp.
+      exact (IH _ _ _ _ _ _ Hlen (proj2 (fits_mapping off n k v Hn Hkv)) Hgrp Hp).
+    - destruct (_ && _ && _)%bool; auto. destruct (n_embedded n) as [e|] eqn:Em; auto.
+      destruct (fits_embedded off n e Hn Em) as [L1 L2].
+      exact (IH _ _ _ _ _ _ L1 L2 Hgrp H).
+  Qed.
+
+  Theorem relaxed_lines_inside all_lines ds yerr f :
+    List.length all_lines <= T -> oerr_ok yerr -> (forall d nl, In (d, nl) ds -> fits 0 d) ->
+    parse_relaxed plines metric_ok lname_ok lvalue_ok all_lines ds yerr = Some f -> file_ok f.
+  Proof.
+    intros HT Hy. unfold parse_relaxed.
+    assert (G : forall ds0 acc f0, (forall d nl, In (d, nl) ds0 -> fits 0 d) -> groups_ok acc ->
+                 parse_relaxed_loop plines metric_ok lname_ok lvalue_ok all_lines ds0 yerr acc = Some f0 -> file_ok f0).
+    { induction ds0 as [|[d nl] r IH]; intros acc f0 Hds Ha H; cbn [parse_relaxed_loop] in H.
+      - inversion H; subst. split; [exact Hy|exact Ha].
+      - destruct (PN (doc_fuel d) (firstn nl all_lines) 0 d None None) as [gs|] eqn:E; [|discriminate].
+        eapply IH; [intros d0 nl0 H0; exact (Hds d0 nl0 (or_intror H0))| |exact H].
+        apply groups_ok_app; [exact Ha|].
+        eapply parse_node_ok; [|exact (Hds d nl (or_introl eq_refl))| |exact E].
+        + pose proof (elen_firstn nl all_lines). lia.
+        + intros g X. discriminate. }
+    intros Hds H. exact (G ds [] f Hds groups_ok_nil H).
+  Qed.
+
+  (** ---- from the parsed file to what is reported: the entries of readRules and the yaml/parse problem ---- *)
+  Theorem entries_lines_inside f e :
+    file_ok f -> In e (read_rules f) ->
+    (forall p, parse_rule_error e = Ok p -> good (p_first p) /\ good (p_last p)) /\
+    (has_error e = false -> r_body (e_rule e) <> NoBody -> body_ok (e_rule e)) /\
+    (forall m, e_glabels e = Some m -> ymap_ok m).
+  Proof.
+    intros [Hf Hg] Hin. unfold read_rules in Hin.
+    assert (Herr : forall pe, good (pe_line pe) ->
+              let e0 := {| e_perr := Some pe; e_rule := zero_rule; e_glabels := None |} in
+              (forall p, parse_rule_error e0 = Ok p -> good (p_first p) /\ good (p_last p)) /\
+              (has_error e0 = false -> r_body (e_rule e0) <> NoBody -> body_ok (e_rule e0)) /\
+              (forall m, e_glabels e0 = Some m -> ymap_ok m)).
+    { intros pe G e0. split; [|split].
+      - intros p E. cbn in E. inversion E; subst. cbn. split; exact G.
+      - intros E. discriminate E.
+      - intros m E. discriminate E. }
+    destruct (f_error f) as [pe|] eqn:FE.
+    - destruct Hin as [<-|[]]. exact (Herr pe (Hf pe eq_refl)).
+    - apply in_flat_map in Hin. destruct Hin as (g & Hgin & Hin). destruct (Hg g Hgin) as (G1 & G2 & G3).
+      apply in_app_or in Hin. destruct Hin as [Hin|Hin].
+      + destruct (g_error g) as [pe|] eqn:GE; [|destruct Hin]. destruct Hin as [<-|[]]. exact (Herr pe (G1 pe eq_refl)).
+      + apply in_map_iff in Hin. destruct Hin as (r & <- & Hr). pose proof (G3 r Hr) as R. unfold rule_lines_ok in R.
+        split; [|split].
+        * intros p E. unfold parse_rule_error in E. cbn [e_perr e_rule] in E.
+          destruct (r_error r) as [pe|]; [|discriminate]. inversion E; subst. cbn. split; exact R.
+        * intros E Hb. unfold has_error in E. cbn [e_perr e_rule] in E |- *. destruct (r_error r); [discriminate|].
+          cbn [e_rule] in Hb. destruct (r_body r); try exact R. exfalso. apply Hb. reflexivity.
+        * exact G2.
+  Qed.
+
+  (** With well-formedness (Proofs/C02_wellformed.v): an entry without error carries a complete rule, whose line
+      range and field extents are inside the file. *)
+  Theorem entries_report_inside f e :
+    file_ok f -> groups_wf (f_groups f) -> In e (read_rules f) ->
+    (forall p, parse_rule_error e = Ok p -> good (p_first p) /\ good (p_last p)) /\
+    (has_error e = false -> body_ok (e_rule e)) /\
+    (forall m, e_glabels e = Some m -> ymap_ok m).
+  Proof.
+    intros Hf Hwf Hin. destruct (entries_lines_inside f e Hf Hin) as (A & B & C).
+    split; [exact A|split; [|exact C]]. intros E. apply B; [exact E|].
+    destruct (routing_total (fun _ => []) f e Hwf Hin) as [(E1 & _)|(_ & _ & Hb)]; [rewrite E in E1; discriminate|].
+    intros X. rewrite X in Hb. exact Hb.
+  Qed.
+
+  (** ---- the executable check of the hypothesis ---- *)
+  Lemma fits_b_eq off n :
+    fits_b T off n =
+    (Nat.leb 1 (n_line n) && Nat.leb 1 (n_col n) && Nat.leb (off + n_line n) T &&
+     forallb (fits_b T off) (n_content n) &&
+     match n_alias n with Some t => fits_b T off t | None => true end &&
+     match n_embedded n with
+     | Some e => Nat.leb (elen (split_lines (n_value n)) + (off + n_line n)) T && fits_b T (off + n_line n) e
+     | None => true
+     end)%bool.
+  Proof.
+    destruct n as [k t v l c a content al em]. cbn [fits_b n_line n_col n_content n_alias n_embedded n_value].
+    assert (H : (fix all (l0 : list node) : bool := match l0 with [] => true | c0 :: r => (fits_b T off c0 && all r)%bool end) content
+                 = forallb (fits_b T off) content).
+    { induction content as [|x r IH]; cbn [forallb]; [reflexivity|]. now rewrite IH. }
+    rewrite H. reflexivity.
+  Qed.
+
+  Lemma nodes_size_In c : forall l, In c l -> node_size c <= nodes_size l.
+  Proof.
+    induction l as [|x r IH]; intros H; [destruct H|]. cbn [nodes_size].
+    destruct H as [->|H]; [lia|]. specialize (IH H). lia.
+  Qed.
+
+  Lemma fits_b_sound : forall k off n, node_size n <= k -> fits_b T off n = true -> fits off n.
+  Proof.
+    induction k as [|k IH]; intros off n Hk H.
+    - rewrite node_size_eq in Hk. lia.
+    - rewrite node_size_eq in Hk. rewrite fits_b_eq in H.
+      apply andb_true_iff in H. destruct H as [H Hem].
+      apply andb_true_iff in H. destruct H as [H Hal].
+      apply andb_true_iff in H. destruct H as [H Hco].
+      apply andb_true_iff in H. destruct H as [H Hof].
+      apply andb_true_iff in H. destruct H as [Hli Hcl].
+      apply Nat.leb_le in Hli. apply Nat.leb_le in Hcl. apply Nat.leb_le in Hof.
+      constructor; try assumption.
+      + intros c Hc. apply IH; [pose proof (nodes_size_In c _ Hc); lia|].
+        rewrite forallb_forall in Hco. exact (Hco c Hc).
+      + intros t E. rewrite E in *. apply IH; [lia|exact Hal].
+      + intros e E. rewrite E in *. apply andb_true_iff in Hem. destruct Hem as [A B]. apply Nat.leb_le in A.
+        split; [exact A|]. apply IH; [lia|exact B].
+  Qed.
+
+  Lemma docs_fit_sound ds : docs_fit T ds = true -> forall d nl, In (d, nl) ds -> fits 0 d.
+  Proof.
+    unfold docs_fit. rewrite forallb_forall. intros H d nl Hin.
+    apply (fits_b_sound (node_size d)); [apply le_n|]. exact (H (d, nl) Hin).
+  Qed.
 End Lines.
